@@ -35,6 +35,17 @@ Twin streams: two or three live transform instances of one class, or of classes 
 (LogSinh/Manly; BoxCox1lam/BoxCox1nu/BoxCox2sym/BoxCox2; ...), assignments and read-only calls on one, every vector of
 every instance observed after each operation, plus an instance constructed after the assignments (it must start from its
 constructor defaults); no array may be shared between instances.
+Round 7: the transform streams name only the CLASS and its constructor keywords (`C Class mininu minilam`, `G name kw`
+for get_transform, `newc:Class:..` in the twin streams): names, defaults, bounds, flags, the inner BoxCox2 and the
+constructor guards come from the model's own class table, for the usual keywords and for exotic ones (mininu / minilam at
+and around `minilam < -3`, the bounds, NaN, +-inf — accepted / rejected must agree); get_transform with foreign keywords,
+NaN values and unknown names; `trans[name]` / `getattr(trans, name)` reads (accepted / rejected and the value read);
+rejected constructions between the operations of a twin history. Every observation carries one bit per vector alive
+before the operation (names / bounds / defaults / flags unchanged: the model's `World.frozen`) and the model's evaluation
+of `EpsOk` at Float on every bound. Every dictionary exported before an operation must read the same after it.
+Stream `margin` (oracle only): assigned values inside the (0, 1e-10] margin of a bound — the point theorem `inRegion_needed`
+shows excluded; everything but the flag is checked there. Stream `nanbounds` (recorded only, never an alarm): NaN among the
+bounds with accept_nan=True — the point theorem `nanFree_bounds_needed` shows excluded.
 A case is non-trivial when the constructor accepted and at least one operation changed the state.
 """
 import itertools
@@ -129,7 +140,7 @@ def op_from_json(o):
 # observation of the real objects (public getters only)
 class Snap:
     """one pass over the public getters of a vector: view (bit patterns), the arrays themselves, to_dict, invariant"""
-    __slots__ = ("view", "arrs", "floats", "dstr", "inv")
+    __slots__ = ("view", "arrs", "floats", "dstr", "inv", "dobj")
 
     def __init__(self, v):
         names = [str(x) for x in v.names]
@@ -138,7 +149,8 @@ class Snap:
         an = v.accept_nan
         self.view = (names,) + tuple(fl(x) for x in self.floats) + (
             b01(v.hitbounds), b01(v.check_bounds), b01(v.check_hitbounds), b01(an))
-        self.dstr = dict_str(v)
+        self.dobj = v.to_dict()            # kept: a dictionary exported now must read the same after later operations
+        self.dstr = dict_repr(self.dobj)
         self.inv = invariant(names, self.floats, an)
 
 
@@ -152,7 +164,10 @@ def view_str(vw):
 
 
 def dict_str(v):
-    d = v.to_dict()
+    return dict_repr(v.to_dict())
+
+
+def dict_repr(d):
     items = ",".join("=".join([str(e["name"]), h(e["value"]), h(e["min"]), h(e["max"]), h(e["default"])])
                      for e in d["data"])
     return ":".join(["D", str(int(d["nval"])), b01(d["hitbounds"]), b01(d["check_bounds"]), b01(d["check_hitbounds"]),
@@ -198,8 +213,15 @@ class WorldSnap:
         self.alias = alias_classes(np, self.snaps)
         self.views = [sn.view for sn in self.snaps]
 
-    def observe(self, out, r="-"):
-        parts = [out, "R:" + r]
+    def observe(self, out, r="-", prev=None):
+        """`prev`: the snapshot taken before the operation — one bit per vector alive then: names / bounds / defaults /
+        flags unchanged (the model reports `World.frozen` the same way)"""
+        if prev is None:
+            fb = "-"
+        else:
+            fb = "".join("1" if j < len(self.views) and VectorRun.frozen(self.views[j]) == VectorRun.frozen(prev.views[j])
+                         else "0" for j in range(len(prev.views)))
+        parts = [out, "R:" + r, "F" + fb, "E1"]     # E1: the model reports that EpsOk (b - EPS <= b <= b + EPS) holds at Float
         for sn in self.snaps:
             parts.append(view_str(sn.view))
             parts.append(sn.dstr)
@@ -464,7 +486,7 @@ class VectorRun:
                                 and all(in_region(x, lo[i], hi[i]) for i, x in enumerate(self.assigned)))
             ws = WorldSnap(np, vecs)
             after = ws.views
-            self.obs.append(ws.observe(out, self.readval if out == "ok" else "-"))
+            self.obs.append(ws.observe(out, self.readval if out == "ok" else "-", wb))
             if after[:nbefore] != before or len(vecs) != nbefore:
                 self.changed = True
             if kind in ("gk", "ga", "rd", "sb") or (kind == "pc" and out == "rej"):
@@ -479,6 +501,17 @@ class VectorRun:
                     self.find("sb/accepts_non_number", "a non-numeric value was accepted", step)
                 continue
             # ---- oracle
+            for j, sn in enumerate(wb.snaps):
+                # a dictionary exported BEFORE the operation is an independent record: the operation (and the exports made
+                # after it) must not reach into it
+                try:
+                    same = dict_repr(sn.dobj) == sn.dstr
+                except Exception:
+                    same = False
+                if not same:
+                    self.find("to_dict/export_changed_later", f"a dictionary exported by vector {j} before the operation "
+                              "no longer holds the state it was exported with", step)
+                    break
             for j, sn in enumerate(ws.snaps):
                 if sn.inv is not None and (j >= nbefore or wb.snaps[j].inv is None):
                     self.find(f"{kind}/invariant/{sn.inv}", f"vector {j} violates the invariant after the operation", step)
@@ -834,7 +867,8 @@ def resolve(seq):
 
 # --------------------------------------------------------------------------------------
 # transforms
-TKINDS = {"BoxCox1lam": "bc1lam", "BoxCox1nu": "bc1nu", "BoxCox2sym": "bc2sym"}
+# (which class re-syncs an inner BoxCox2, and every constructor's names / defaults / bounds / flags: the MODEL's table
+# `TClass.kind` / `classSpecs` in lean/HydroVerif/Model/C12T.lean — the harness only names the class)
 TCTOR = {
     "Identity": [{}], "Logit": [{}], "Log": [{}, {"mininu": 0.5}, {"base": 10.0}],
     "BoxCox2": [{}, {"mininu": 0.25, "minilam": -1.0}], "BoxCox1lam": [{}, {"mininu": 0.25, "minilam": -1.0}],
@@ -843,7 +877,32 @@ TCTOR = {
     "Manly": [{}],
 }
 READONLY = ["fw", "bw", "jc", "sm", "lp", "pr", "bcz", "tg", "tpc"]
+READS = ["gi", "gat"]          # trans[name] / getattr(trans, name): accepted / rejected and the value read are compared
 MODEL_TOKEN = {"bcz": "fw", "tg": "pr", "tpc": "pr"}    # backward_censored = forward + backward; pure reads = print
+CTOR_ARGS = {"Log": ("mininu", "base"), "Reciprocal": ("mininu",), "BoxCox2": ("mininu", "minilam"),
+             "BoxCox1lam": ("mininu", "minilam"), "BoxCox1nu": ("mininu", "minilam"), "BoxCox2sym": ("mininu", "minilam")}
+# constructor arguments at and around the constructors' own guards (`minilam < -3`, mins <= defaults <= maxs, NaN)
+MININU_X = [0.0, 1e-3, 0.5, -1.0, INF, -INF, NAN, 1e-10, 2.5]
+MINILAM_X = [-3.0, -3.0 - 1e-9, -3.5, -2.999, -INF, NAN, 1.0, 1.0 + 1e-6, 2.0, 3.0, 3.5, INF, 0.0, -1.0]
+
+
+def gen_ctor_kwargs(rng, clsname, exotic=0.3):
+    """constructor keywords of one transform class: the usual ones, or (probability `exotic`) values at and around the
+    constructor guards — the model's class table decides accepted / rejected and the resulting bounds"""
+    if clsname not in CTOR_ARGS or rng.random() >= exotic:
+        return dict(rng.choice(TCTOR[clsname]))
+    kw = {"_exotic": True}       # outside the usual constructor arguments: correspondence only, no oracle on the fresh object
+    if rng.random() < 0.7:
+        kw["mininu"] = rng.choice(MININU_X)
+    if "minilam" in CTOR_ARGS[clsname] and rng.random() < 0.7:
+        kw["minilam"] = rng.choice(MINILAM_X)
+    if "base" in CTOR_ARGS[clsname] and rng.random() < 0.3:
+        kw["base"] = 10.0
+    return kw
+
+
+def ctor_tokens(kwargs):
+    return [h(kwargs[k]) if k in kwargs else "-" for k in ("mininu", "minilam")]
 
 
 def spec_of_vector(v):
@@ -861,9 +920,12 @@ def trans_vectors(t):
 
 def gen_top(rng, pspec, cspec):
     r = rng.random()
+    both = [(pspec, nm) for nm in pspec["names"]] + [(cspec, nm) for nm in cspec["names"]]
+    if r < 0.08:
+        # item / attribute reads; "yy" / "qq" are never assigned as foreign attributes
+        return (rng.choice(READS), rng.choice([nm for _, nm in both] + ["yy", "qq"]))
     if r < 0.5:
         return (rng.choice(READONLY),)
-    both = [(pspec, nm) for nm in pspec["names"]] + [(cspec, nm) for nm in cspec["names"]]
     if r < 0.80:
         if both and rng.random() < 0.85:
             sp, nm = rng.choice(both)
@@ -895,14 +957,29 @@ def top_token(op):
         return MODEL_TOKEN[op[0]]
     if op[0] in ("ti", "ta"):
         return f"{op[0]}:{op[1]}:{h(op[2])}"
+    if op[0] == "gi":
+        return f"tgi:{op[1]}"
+    if op[0] == "gat":
+        return f"tga:{op[1]}"
     if op[0] in ("pv", "cv"):
         return f"{op[0]}:{fl(op[1])}"
     return op[0]
 
 
 def apply_top(np, t, clsname, op, xin):
-    """-> 'ok' | 'rej' (assignment rejected by ValueError) ; read-only calls never report rejection"""
+    """-> ('ok' | 'rej', value read or '-'): 'rej' = assignment rejected by ValueError / read rejected by ValueError or
+    AttributeError; the other read-only calls never report rejection"""
     kind = op[0]
+    if kind == "gi":
+        try:
+            return "ok", h(t[op[1]])
+        except ValueError:
+            return "rej", "-"
+    if kind == "gat":
+        try:
+            return "ok", h(getattr(t, op[1]))
+        except AttributeError:
+            return "rej", "-"
     if kind in READONLY:
         try:
             with np.errstate(all="ignore"):
@@ -937,7 +1014,7 @@ def apply_top(np, t, clsname, op, xin):
                     str(t), str(t.params), str(t.constants)
         except Exception:
             pass     # C01/C02 territory (Manly's unbound names, NaN constants, domain errors): only the state matters here
-        return "ok"
+        return "ok", "-"
     try:
         if kind == "ti":
             t[op[1]] = op[2]
@@ -950,29 +1027,48 @@ def apply_top(np, t, clsname, op, xin):
         elif kind == "cv":
             t.constants.values = list(op[1])
     except ValueError:
-        return "rej"
-    return "ok"
+        return "rej", "-"
+    return "ok", "-"
+
+
+def build_transform(transform, clsname, kwargs):
+    """-> (object or None when the constructor / get_transform raised ValueError, request head)"""
+    kwargs = dict(kwargs)
+    kwargs.pop("_exotic", None)
+    via = kwargs.pop("_get_transform", None)     # {name: value}: keywords handed to get_transform next to the constructor's
+    name = kwargs.pop("_name", clsname)          # get_transform(name, ...): possibly not a transform name
+    try:
+        if via is None:
+            head = ["C", clsname] + ctor_tokens(kwargs)
+            t = getattr(transform, clsname)(**kwargs)
+        else:
+            allkw = dict(kwargs, **via)
+            head = ["G", name, ";".join(f"{k}={h(x)}" for k, x in allkw.items()) or "-"]
+            t = transform.get_transform(name, **allkw)
+    except ValueError:
+        return None, head
+    return t, head
 
 
 def run_transform_case(np, transform, clsname, kwargs, ops, rng_inputs):
-    """-> (request, obs list, findings, changed)"""
-    kwargs = dict(kwargs)
-    via = kwargs.pop("_get_transform", None)     # {name: value}: parameters / constants set by get_transform itself
-    if via is None:
-        t = getattr(transform, clsname)(**kwargs)
-    else:
-        t = transform.get_transform(clsname, **kwargs, **via)
+    """-> (request, obs list, findings, changed). The request names the CLASS and its constructor keywords only: names,
+    defaults, bounds and flags of params / constants / BC.params come from the model's own class table."""
+    t, req = build_transform(transform, clsname, kwargs)
+    if t is None:
+        return " ".join(req), ["rej"], [], False
     vecs = trans_vectors(t)
-    specs = [spec_of_vector(v) for v in vecs]
-    req = ["T", TKINDS.get(clsname, "plain"), spec_token(specs[0]), spec_token(specs[1]),
-           spec_token(specs[2]) if len(specs) > 2 else "-"]
-    for nm, x in (via or {}).items():           # the model replays them as item assignments on the fresh transform
-        req.append(f"ti:{nm}:{h(x)}")
     ws = WorldSnap(np, vecs)
     obs = [ws.observe("ok")]
     findings = []
     changed = False
     who = ("params", "constants", "BC.params")
+    for j, sn in enumerate(ws.snaps if not kwargs.get("_exotic") else []):
+        fresh = "_get_transform" not in kwargs
+        if fresh and (sn.view[1] != sn.view[4] or sn.view[5] != "0"):
+            findings.append((f"transform/{clsname}/fresh_instance_not_at_defaults",
+                             f"{who[j]} of a fresh {clsname}: values {sn.floats[0]} defaults {sn.floats[3]}", -1))
+        if sn.inv is not None:
+            findings.append((f"transform/{clsname}/fresh_instance_invariant/{sn.inv}", f"{who[j]} of a fresh {clsname}", -1))
     for step, op in enumerate(ops):
         req.append(top_token(op))
         wb = ws
@@ -980,16 +1076,24 @@ def run_transform_case(np, transform, clsname, kwargs, ops, rng_inputs):
         xin = rng_inputs[step % len(rng_inputs)]
         if clsname == "Softmax":
             xin = np.array([[0.1, 0.2, 0.3], [0.05, 0.5, 0.2]])
-        out = apply_top(np, t, clsname, op, xin)
+        out, rv = apply_top(np, t, clsname, op, xin)
         now = trans_vectors(t)
         if len(now) != len(vecs) or any(a is not b for a, b in zip(now, vecs)):
             findings.append((f"transform/{clsname}/{op[0]}/vector_replaced", "params/constants object was replaced", step))
             vecs = now
         ws = WorldSnap(np, vecs)
         after = ws.views
-        obs.append(ws.observe(out))
+        obs.append(ws.observe(out, rv, wb))
         if after != before:
             changed = True
+        if op[0] in READS and out == "ok":
+            for j in (0, 1):
+                nms = before[j][0]
+                if op[1] in nms:
+                    if rv != h(wb.snaps[j].floats[0][nms.index(op[1])]):
+                        findings.append((f"transform/{clsname}/{op[0]}/read_value_wrong",
+                                         "trans[name] / trans.name is not the stored element", step))
+                    break
         for j, sn in enumerate(ws.snaps):
             if j >= len(before):
                 continue
@@ -998,7 +1102,7 @@ def run_transform_case(np, transform, clsname, kwargs, ops, rng_inputs):
             if VectorRun.frozen(after[j]) != VectorRun.frozen(before[j]):
                 findings.append((f"transform/{clsname}/{op[0]}/bounds_changed",
                                  f"names/bounds/defaults/flags of {who[j]} changed", step))
-        if op[0] in READONLY:
+        if op[0] in READONLY or op[0] in READS:
             for j in (0, 1):
                 if after[j] != before[j] and VectorRun.frozen(after[j]) == VectorRun.frozen(before[j]):
                     findings.append((f"transform/{clsname}/{op[0]}/values_changed",
@@ -1024,23 +1128,32 @@ def run_twin_case(np, transform, ops, inputs):
     owner = []          # instance index of every vector, in world order
     req, obs, findings = ["M"], [], []
     changed = False
-    ws = None
+    ws = WorldSnap(np, [])
 
     def allvecs():
         return [v for (_, _, vs) in insts for v in vs]
     for step, op in enumerate(ops):
         wb = ws
-        if op[0] == "new":
-            cls, kwargs = op[1], op[2]
-            t = getattr(transform, cls)(**kwargs)
+        if op[0] in ("new", "newbad"):
+            # "new": a constructor call that is accepted; "newbad": one the constructor rejects (no instance appears)
+            cls, kwargs = op[1], {k: x for k, x in op[2].items() if not k.startswith("_")}
+            req.append(":".join(["newc", cls] + ctor_tokens(kwargs)))
+            try:
+                t = getattr(transform, cls)(**kwargs)
+            except ValueError:
+                t = None
+            if t is None or op[0] == "newbad":
+                ws = WorldSnap(np, allvecs())
+                obs.append(ws.observe("rej" if t is None else "ok", "-", wb))
+                if ws.views != wb.views:
+                    findings.append((f"transform/twin/{cls}/rejected_construction_changes_state",
+                                     "a constructor call that raised changed a vector of a live instance", step))
+                continue
             vs = trans_vectors(t)
-            specs = [spec_of_vector(v) for v in vs]
-            req.append(":".join(["new", TKINDS.get(cls, "plain"), spec_token(specs[0]), spec_token(specs[1]),
-                                 spec_token(specs[2]) if len(specs) > 2 else "-"]))
             insts.append((t, cls, vs))
             owner += [len(insts) - 1] * len(vs)
             ws = WorldSnap(np, allvecs())
-            obs.append(ws.observe("ok"))
+            obs.append(ws.observe("ok", "-", wb))
             who = ("params", "constants", "BC.params")
             for j, sn in enumerate(ws.snaps[len(ws.snaps) - len(vs):]):
                 if sn.view[1] != sn.view[4] or sn.view[5] != "0":
@@ -1058,10 +1171,10 @@ def run_twin_case(np, transform, ops, inputs):
             xin = inputs[step % len(inputs)]
             if cls == "Softmax":
                 xin = np.array([[0.1, 0.2, 0.3], [0.05, 0.5, 0.2]])
-            out = apply_top(np, t, cls, top, xin)
+            out, rv = apply_top(np, t, cls, top, xin)
             req.append(f"{i}.{top_token(top)}")
             ws = WorldSnap(np, allvecs())
-            obs.append(ws.observe(out))
+            obs.append(ws.observe(out, rv, wb))
             if ws.views != wb.views:
                 changed = True
             for g in range(len(ws.views)):
@@ -1069,7 +1182,7 @@ def run_twin_case(np, transform, ops, inputs):
                     other = insts[owner[g]][1]
                     findings.append((f"transform/twin/{cls}->{other}/{top[0]}/other_instance_changed",
                                      f"an operation on one {cls} changed a vector of another live instance ({other})", step))
-            if top[0] in READONLY:
+            if top[0] in READONLY or top[0] in READS:
                 base = owner.index(i)
                 for j in (0, 1):
                     if ws.views[base + j] != wb.views[base + j]:
@@ -1089,6 +1202,8 @@ def twin_valid(ops):
     for op in ops:
         if op[0] == "new":
             n += 1
+        elif op[0] == "newbad":
+            continue
         elif op[0] >= n:
             return False
     return n > 0
@@ -1099,7 +1214,7 @@ def shrink_twin(np, transform, ops, inputs, sig):
         try:
             for f in run_twin_case(np, transform, seq, inputs)[2]:
                 op = seq[f[2]]
-                if f[0] == sig and (op[0] == "new" or op[1][0] != "tpc"):
+                if f[0] == sig and (op[0] in ("new", "newbad") or op[1][0] != "tpc"):
                     return True
         except Exception:
             pass
@@ -1113,8 +1228,8 @@ def shrink_twin(np, transform, ops, inputs, sig):
             # dropping a "new" renumbers the instances after it
             if cur[i][0] == "new":
                 k = sum(1 for o in cur[:i] if o[0] == "new")
-                cand = [o if o[0] == "new" else ((o[0] - 1, o[1]) if o[0] > k else o) for o in cand
-                        if o[0] == "new" or o[0] != k]
+                cand = [o if o[0] in ("new", "newbad") else ((o[0] - 1, o[1]) if o[0] > k else o) for o in cand
+                        if o[0] in ("new", "newbad") or o[0] != k]
             if twin_valid(cand) and fails(cand):
                 cur, changed = cand, True
                 break
@@ -1133,8 +1248,13 @@ def gen_twin_ops(rng, transform):
     ops, specs = [], []
 
     def new(cls):
-        kwargs = rng.choice(TCTOR[cls])
-        t0 = getattr(transform, cls)(**kwargs)
+        kwargs = gen_ctor_kwargs(rng, cls, 0.15)
+        try:
+            t0 = getattr(transform, cls)(**{k: x for k, x in kwargs.items() if not k.startswith("_")})
+        except ValueError:
+            ops.append(("newbad", cls, kwargs))      # rejected by the constructor: no instance
+            kwargs = dict(rng.choice(TCTOR[cls]))
+            t0 = getattr(transform, cls)(**kwargs)
         specs.append((spec_of_vector(t0.params), spec_of_vector(t0.constants)))
         ops.append(("new", cls, kwargs))
     for cls in classes:
@@ -1142,6 +1262,8 @@ def gen_twin_ops(rng, transform):
     for _ in range(rng.choice([3, 6, 10])):
         i = rng.randrange(len(specs))
         ops.append((i, gen_top(rng, *specs[i])))
+        if rng.random() < 0.05:
+            ops.append(("newbad", "BoxCox2", {"minilam": rng.choice([-3.5, -INF, 3.5, NAN])}))
     new(rng.choice(classes))            # a fresh instance after the assignments
     for _ in range(rng.choice([1, 3, 5])):
         i = rng.randrange(len(specs))
@@ -1149,12 +1271,20 @@ def gen_twin_ops(rng, transform):
     return ops
 
 
+def kw_json(kw):
+    return {k: (repr(float(x)) if isinstance(x, float) else x) for k, x in kw.items()}
+
+
+def kw_from_json(kw):
+    return {k: (float(x) if isinstance(x, str) and k in ("mininu", "minilam", "base") else x) for k, x in kw.items()}
+
+
 def twin_json(ops):
-    return [["new", o[1], o[2]] if o[0] == "new" else [o[0], op_json(o[1])] for o in ops]
+    return [[o[0], o[1], kw_json(o[2])] if o[0] in ("new", "newbad") else [o[0], op_json(o[1])] for o in ops]
 
 
 def twin_from_json(j):
-    return [("new", o[1], o[2]) if o[0] == "new" else (int(o[0]), op_from_json(o[1])) for o in j]
+    return [(o[0], o[1], kw_from_json(o[2])) if o[0] in ("new", "newbad") else (int(o[0]), op_from_json(o[1])) for o in j]
 
 
 def shrink_tops(np, transform, clsname, kwargs, ops, inputs, sig):
@@ -1186,26 +1316,33 @@ def body(ctx):
     rng = ctx.rng
     np.random.seed(rng.getrandbits(32))
     reqs, impls, cases = [], [], []
-    extras = {}          # request index -> {"regions": [...]} (vector cases) / {"skip": n} (get_transform prefix)
+    extras = {}          # request index -> {"regions": [...]} (vector cases)
     shrunk = set()
 
     eps_model = ctx.lean.ask(["eps"])[0]
     if eps_model != C.f2h(containers.EPS):
         ctx.disagree("EPS constant differs", {"model": eps_model, "code": C.f2h(containers.EPS)})
 
-    def vector_case(spec, ops, gen):
+    def vector_case(spec, ops, gen, model=True, oracle=True):
+        """model=False: oracle only (the `margin` stream: inside the (0, 1e-10] margin the two assignment paths set the
+        flag differently and a rewrite may harmonise them — the hit oracle is conditioned, everything else is checked);
+        oracle=False: correspondence only (the `nanbounds` stream: NaN bounds are outside the quantifier)"""
         try:
             r = run_vector_case(np, Vector, spec, ops)
         except Exception as e:   # the class under test failed in a way the runner does not expect
-            ctx.finding("vector/unexpected_exception", f"{type(e).__name__}: {e}",
-                        {"spec": spec_json(spec), "ops": [op_json(o) for o in ops]})
+            if oracle:
+                ctx.finding("vector/unexpected_exception", f"{type(e).__name__}: {e}",
+                            {"spec": spec_json(spec), "ops": [op_json(o) for o in ops]})
+            else:
+                ctx.hist[f"{gen}/exception"] = ctx.hist.get(f"{gen}/exception", 0) + 1
             return
         req = " ".join(["V", spec_token(spec)] + r.used_ops)
         case = {"gen": gen, "spec": spec_json(spec), "ops": [op_json(o) for o in ops]}
-        reqs.append(req)
-        impls.append(r.obs)
-        cases.append(case)
-        extras[len(reqs) - 1] = {"regions": r.regions}
+        if model:
+            reqs.append(req)
+            impls.append(r.obs)
+            cases.append(case)
+            extras[len(reqs) - 1] = {"regions": r.regions if oracle else []}
         rejected_ctor = r.obs == ["rej"]
         ctx.count(req, (not rejected_ctor) and r.changed,
                   "ctor_rejected" if rejected_ctor else f"{gen}/n={len(spec['names'])}/depth={len(ops)}",
@@ -1213,7 +1350,7 @@ def body(ctx):
         for op, o in zip(ops, r.obs[1:]):
             key = f"op/{op[0]}/{o.split(' ', 1)[0]}"
             ctx.hist[key] = ctx.hist.get(key, 0) + 1
-        for sig, what, step, soft in r.findings:
+        for sig, what, step, soft in (r.findings if oracle else []):
             fops = ops[:step + 1]
             if soft:
                 ctx.disagree(f"outside the property's operations (copy.deepcopy / pickle involved): vector/{sig}: {what}",
@@ -1232,27 +1369,31 @@ def body(ctx):
             req, obs, findings, changed = run_transform_case(np, transform, clsname, kwargs, ops, inputs)
         except Exception as e:
             ctx.finding(f"transform/{clsname}/unexpected_exception", f"{type(e).__name__}: {e}",
-                        {"class": clsname, "kwargs": kwargs})
+                        {"class": clsname, "kwargs": repr(kwargs)})
             return
         reqs.append(req)
         impls.append(obs)
-        extras[len(reqs) - 1] = {"skip": len(kwargs.get("_get_transform") or {})}
-        cases.append({"gen": gen, "class": clsname, "kwargs": kwargs, "ops": [op_json(o) for o in ops]})
+        kwj = {k: (kw_json(x) if isinstance(x, dict) else repr(float(x)) if isinstance(x, float) else x)
+               for k, x in kwargs.items()}
+        cases.append({"gen": gen, "class": clsname, "kwargs": kwj, "ops": [op_json(o) for o in ops]})
         tcases.append(len(reqs) - 1)
-        ctx.count(req, changed, f"{gen}/{clsname}", sample=None)
+        ctx.count(req, changed, f"{gen}/{clsname}" + ("/ctor_rejected" if obs == ["rej"] else ""), sample=None)
         for op in ops:
             key = f"top/{op[0]}"
             ctx.hist[key] = ctx.hist.get(key, 0) + 1
         for sig, what, step in findings:
-            fops = ops[:step + 1]
+            fops = ops[:step + 1] if step >= 0 else []
+            if step < 0:
+                ctx.finding(sig, what, {"class": clsname, "kwargs": kwj, "ops": []})
+                continue
             if ops[step][0] == "tpc":
                 ctx.disagree(f"outside the property's operations (copy.deepcopy / pickle of the transform): {sig}: {what}",
-                             {"class": clsname, "kwargs": kwargs, "ops": [op_json(o) for o in fops]})
+                             {"class": clsname, "kwargs": kwj, "ops": [op_json(o) for o in fops]})
                 continue
             if sig not in shrunk:
                 shrunk.add(sig)
                 fops = shrink_tops(np, transform, clsname, kwargs, fops, inputs, sig)
-            ctx.finding(sig, what, {"class": clsname, "kwargs": kwargs, "ops": [op_json(o) for o in fops]})
+            ctx.finding(sig, what, {"class": clsname, "kwargs": kwj, "ops": [op_json(o) for o in fops]})
 
     def twin_case(ops, gen="twin"):
         try:
@@ -1266,11 +1407,11 @@ def body(ctx):
         classes = "+".join(o[1] for o in ops if o[0] == "new")
         ctx.count(req, changed, f"{gen}/{classes}" if gen == "corpus" else gen, sample=None)
         for op in ops:
-            key = "top/new" if op[0] == "new" else f"top/{op[1][0]}"
+            key = f"top/{op[0]}" if op[0] in ("new", "newbad") else f"top/{op[1][0]}"
             ctx.hist[key] = ctx.hist.get(key, 0) + 1
         for sig, what, step in findings:
             fops = ops[:step + 1]
-            if ops[step][0] != "new" and ops[step][1][0] == "tpc":
+            if ops[step][0] not in ("new", "newbad") and ops[step][1][0] == "tpc":
                 ctx.disagree(f"outside the property's operations (copy.deepcopy / pickle of the transform): {sig}: {what}",
                              {"ops": twin_json(fops)})
                 continue
@@ -1286,7 +1427,8 @@ def body(ctx):
         if j.get("kind") == "twin":
             twin_case(twin_from_json(j["ops"]), "corpus")
         elif j.get("kind") == "transform":
-            transform_case(j["class"], j.get("kwargs", {}), [op_from_json(o) for o in j["ops"]], "corpus")
+            kwc = {k: (kw_from_json(x) if isinstance(x, dict) else x) for k, x in kw_from_json(j.get("kwargs", {})).items()}
+            transform_case(j["class"], kwc, [op_from_json(o) for o in j["ops"]], "corpus")
         else:
             vector_case(spec_from_json(j["spec"]), [op_from_json(o) for o in j["ops"]], "corpus")
 
@@ -1320,6 +1462,40 @@ def body(ctx):
         spec = gen_bad_spec(rng)
         vector_case(spec, [("rs", 0), ("cl", 0)], "malformed")
 
+    # ---- (iii-b) the two points the theorems exclude by hypothesis, probed on the real code
+    # margin: assigned values inside the (0, 1e-10] margin of a bound (theorem `inRegion_needed`: there the whole-vector
+    # path clips without flagging). Oracle only — everything but the flag is checked (stored == nearest point of the
+    # interval, invariant, frozen bounds, rejected => untouched, copies) and the hit oracle keeps its conditioning.
+    for _ in range(ctx.scale(150, 1500)):
+        spec = gen_spec(rng)
+        ops, n = [], 1
+        for _ in range(rng.choice([3, 10, 25])):
+            op = gen_op(rng, spec, n, VALUE_CLASSES + ["margin_lo", "margin_hi", "margin_lo", "margin_hi"])
+            if op[0] in ("cl", "dr"):
+                n += 1
+            ops.append(op)
+        vector_case(spec, ops, "margin", model=False)
+    # nanbounds: NaN among mins / maxs with accept_nan=True (theorem `nanFree_bounds_needed`: the constructor accepts
+    # them and the vector is not well formed). Outside the quantifier: correspondence only, no oracle.
+    for _ in range(ctx.scale(100, 1000)):
+        spec = gen_spec(rng)
+        n = len(spec["names"])
+        if n == 0:
+            continue
+        spec["an"] = True
+        for key in rng.choice([("mins",), ("maxs",), ("mins", "maxs")]):
+            xs = list(spec[key]) if spec[key] is not None else [(-INF if key == "mins" else INF)] * n
+            xs[rng.randrange(n)] = NAN
+            spec[key] = xs
+        ops, k = [], 1
+        for _ in range(rng.choice([2, 6, 12])):
+            op = gen_op(rng, spec, k)
+            if op[0] in ("cl", "dr"):
+                k += 1
+            ops.append(op)
+        vector_case(spec, ops, "nanbounds", oracle=False)
+    ctx.hist.setdefault("nanbounds/differs_from_model", 0)
+
     # ---- (iv) transforms
     ninter = ctx.scale(40, 1200)
     for clsname in transform.__all__:
@@ -1327,24 +1503,39 @@ def body(ctx):
             ctx.disagree("transform class not known to the harness", {"class": clsname})
             continue
         for it in range(ninter):
-            kwargs = rng.choice(TCTOR[clsname])
+            kwargs = gen_ctor_kwargs(rng, clsname)
+            plain = {k: x for k, x in kwargs.items() if not k.startswith("_")}
             try:
-                t0 = getattr(transform, clsname)(**kwargs)
-                pspec, cspec = spec_of_vector(t0.params), spec_of_vector(t0.constants)
+                t0 = getattr(transform, clsname)(**plain)
+            except ValueError:
+                # the constructor rejects these arguments (guard `minilam < -3`, NaN, defaults outside the bounds): the
+                # model's class table must reject them too — directly and through get_transform
+                if rng.random() < 0.5:
+                    kwargs = dict(kwargs, _get_transform={})
+                transform_case(clsname, kwargs, [])
+                continue
             except Exception as e:
                 ctx.finding(f"transform/{clsname}/unexpected_exception", f"{type(e).__name__}: {e}",
-                            {"class": clsname, "kwargs": kwargs})
+                            {"class": clsname, "kwargs": repr(kwargs)})
                 continue
+            pspec, cspec = spec_of_vector(t0.params), spec_of_vector(t0.constants)
             ops = [gen_top(rng, pspec, cspec) for _ in range(rng.choice([4, 12, 25]))]
             both = [(pspec, nm) for nm in pspec["names"]] + [(cspec, nm) for nm in cspec["names"]]
-            if both and rng.random() < 0.25:
-                # the same class built by get_transform(name, **constructor args, **parameter / constant values)
+            if rng.random() < 0.25:
+                # the same class built by get_transform(name, **constructor args, **parameter / constant values,
+                # **foreign keywords): constructor keywords of OTHER classes and unknown names are skipped, a NaN for a
+                # parameter makes get_transform raise
                 via = {}
-                for sp, nm in rng.sample(both, rng.randint(1, len(both))):
+                for sp, nm in rng.sample(both, rng.randint(0, len(both))):
                     i = sp["names"].index(nm)
                     via[nm] = nz(value_for(rng, sp["mins"][i], sp["maxs"][i],
-                                           rng.choice(["inside", "on_lo", "on_hi", "below", "above"])))
+                                           rng.choice(["inside", "on_lo", "on_hi", "below", "above", "below6", "nan"])))
+                for key in ("mininu", "minilam", "base", "zz"):
+                    if key not in CTOR_ARGS.get(clsname, ()) and key not in via and rng.random() < 0.2:
+                        via[key] = rng.choice([0.5, NAN, -7.0])
                 kwargs = dict(kwargs, _get_transform=via)
+                if rng.random() < 0.04:
+                    kwargs["_name"] = rng.choice(["Nope", clsname.lower(), "Transform", "get_transform"])
             transform_case(clsname, kwargs, ops)
     # ---- (v) several live instances of the same class / of classes written alike, a fresh one after the assignments
     for _ in range(ctx.scale(150, 3000)):
@@ -1359,8 +1550,8 @@ def body(ctx):
     nsteps = 0
     for idx, (req, impl, rep, case) in enumerate(zip(reqs, impls, replies, cases)):
         mobs = rep.split(" | ")
-        if mobs[0].startswith("rej "):
-            model = ["rej"]
+        if len(mobs) == 1 and mobs[0].startswith("rej ") and len(mobs[0].split(" ")) == 2:
+            model = ["rej"]           # the constructor / get_transform raised: no object, no observation
         elif rep == "bad-op":
             model = ["bad-op"]
         else:
@@ -1370,7 +1561,6 @@ def body(ctx):
                 model.append(s)
                 gflags.append(g)
             ex = extras.get(idx, {})
-            model = model[ex.get("skip", 0):]
             # the theorems' conditioning (`inRegion`, evaluated by the model) must hold wherever the harness's own,
             # stricter conditioning (inside / on the bound / >= 1e-6 outside) held and the hit oracle was applied
             for j, reg in enumerate(ex.get("regions", [])):
@@ -1378,6 +1568,12 @@ def body(ctx):
                     ctx.disagree("conditioning: the oracle's region is not inside the theorem's inRegion",
                                  {"request": req[:1500], "step": j})
         nsteps += len(impl)
+        if case.get("gen") == "nanbounds":
+            # outside the quantifier (NaN bounds): what the real code does there is recorded, never an alarm — a rewrite
+            # may legitimately clip differently against a NaN bound
+            key = "nanbounds/agrees_with_model" if impl == model else "nanbounds/differs_from_model"
+            ctx.hist[key] = ctx.hist.get(key, 0) + 1
+            continue
         if impl != model:
             # first differing step
             j = next((i for i, (a, b) in enumerate(zip(impl, model)) if a != b), min(len(impl), len(model)))
